@@ -1,4 +1,5 @@
 import MpgsModel.Lemmas.Pool
+import MpgsModel.Lemmas.Kick
 import MpgsModel.Props.C10
 /-!
 Lifecycle of server-side connections over whole runs (C10).
@@ -519,6 +520,35 @@ theorem sweepTemps_step (C : Crypto) (sz : Sizes) (t : Int) (s : Srv) (snap : Li
       have hn := legal_neutral st _ hout
       exact ⟨(legal_append _ _ _).mpr ⟨hn.1, by rw [hn.2]; exact h2.1⟩, by rw [after_append, hn.2]; exact h2.2⟩
 
+/-- the update handler disconnecting everybody changes no address and no identity -/
+theorem inv_kickAll (s : Srv) (st : LState) (hi : Inv s st) : Inv (kickAll s) st where
+  knc := by unfold KN; rw [kickAll_keys]; exact hi.knc
+  knt := hi.knt
+  lv := by
+    intro id
+    rw [hi.lv id]
+    constructor
+    · rintro ⟨a, e, hm, hid⟩
+      exact ⟨a, kickEnt e, (kickAll_mem s a _).mpr ⟨e, hm, rfl⟩, hid⟩
+    · rintro ⟨a, e, hm, hid⟩
+      obtain ⟨e0, hm0, rfl⟩ := (kickAll_mem s a e).mp hm
+      exact ⟨a, e0, hm0, hid⟩
+  uc := by
+    intro a e a' e' h1 h2 hid
+    obtain ⟨e0, hm0, rfl⟩ := (kickAll_mem s a e).mp h1
+    obtain ⟨e0', hm0', rfl⟩ := (kickAll_mem s a' e').mp h2
+    exact hi.uc a e0 a' e0' hm0 hm0' hid
+  ut := hi.ut
+  tu := hi.tu
+  lu := hi.lu
+  ub := hi.ub
+
+theorem inv_maybeKick (s : Srv) (st : LState) (a : HAct) (hi : Inv s st) :
+    Inv (if a = HAct.kick then kickAll s else s) st := by
+  split
+  · exact inv_kickAll s st hi
+  · exact hi
+
 theorem iter_step (sz : Sizes) (C : Crypto) (s : Srv) (tq ts : Int) (batch : List Item) (acts : List HAct) (st : LState)
     (hi : Inv s st) :
     Legal st (iter sz C s tq ts batch acts).2 ∧ Inv (iter sz C s tq ts batch acts).1 (after st (iter sz C s tq ts batch acts).2) := by
@@ -535,8 +565,11 @@ theorem iter_step (sz : Sizes) (C : Crypto) (s : Srv) (tq ts : Int) (batch : Lis
       · simp at h; subst h; trivial
       · simp at h
   have hn := legal_neutral (after st e1) _ hu
-  have h2 := sweepConns_step C sz ts s1 s1.conns (nextAct acts1).2 (after st e1) h1.2
-  generalize sweepConns C sz ts s1 s1.conns (nextAct acts1).2 = r2 at h2
+  have h2 := sweepConns_step C sz ts (if (nextAct acts1).1 = HAct.kick then kickAll s1 else s1)
+    (if (nextAct acts1).1 = HAct.kick then kickAll s1 else s1).conns (nextAct acts1).2 (after st e1)
+    (inv_maybeKick s1 (after st e1) (nextAct acts1).1 h1.2)
+  generalize sweepConns C sz ts (if (nextAct acts1).1 = HAct.kick then kickAll s1 else s1)
+    (if (nextAct acts1).1 = HAct.kick then kickAll s1 else s1).conns (nextAct acts1).2 = r2 at h2
   obtain ⟨s2, acts2, e2⟩ := r2
   simp only at h2 ⊢
   have h3 := sweepTemps_step C sz ts s2 s2.temps (after (after st e1) e2) h2.2.1
